@@ -235,7 +235,7 @@ def soeSensitivity {n nf np k : ℕ} (f : Fin nf → Fin n) (p : Fin np → Fin 
 /-! ## StaticCondensation -/
 
 /-- `StaticCondensation._response(A)`: `X = Aff⁻¹ Afm` by the inner solver, `Ã = Amm − Amf X`.
-`issparse = false` is rejected (`ndarray` has no `.todense()`). Returns `(Ã, X)`. -/
+`issparse = false` is rejected (`ndarray` has no `.toarray()`). Returns `(Ã, X)`. -/
 def staticCondResponse {n nm nf : ℕ} (issparse : Bool) (m : Fin nm → Fin n) (f : Fin nf → Fin n)
     (A : Matrix (Fin n) (Fin n) α) (S : Solver nf α) :
     Except Err (Matrix (Fin nm) (Fin nm) α × Matrix (Fin nf) (Fin nm) α) :=
